@@ -193,7 +193,11 @@ def numeric_sweep():
             got0 = d.read_trn(io.StringIO("a (u)\nb (v)\n"), False, present(0, kind), present(3, kind))
             ncalls = len(fp.calls)
         want = [("u", ["a"]), ("v", ["b"])]
-        return (got == want and got0 == want and calls == [(2, 3)] and ncalls == 1) or f"read {got!r} {got0!r} pool {calls}"
+        # what is judged: the transcripts, that the requested number of workers is what the pool gets, and that
+        # processes=0 starts no pool. HOW the lines are grouped for the pool (imap's chunksize vs. batches cut by
+        # the caller) is the implementation's business (false alarm on harmless rewrite C11-b2, DESIGN 11.3b)
+        return (got == want and got0 == want and len(calls) == ncalls >= 1 and all(c[0] == 2 for c in calls)) \
+            or f"read {got!r} {got0!r} pool {calls}"
 
     rows = [[5, 25, 100], [5, 100, 100], [5, 200, 350]]
 
